@@ -131,7 +131,8 @@ class BeartypeNodeScopes(list[BeartypeNodeScope]):
             raise _BeartypeClawAstNodeScopesException(
                 f'AST scope "{name}" node type {repr(node_type)} '
                 f'not that of nested scope '
-                f'(i.e., neither "ast.ClassDef" nor "ast.FunctionDef").'
+                f'(i.e., neither "ast.ClassDef", "ast.FunctionDef", nor '
+                f'"ast.AsyncFunctionDef").'
             )
         # Else, this node declares a new nested lexical scope.
 
